@@ -692,7 +692,7 @@ def process_unit(path, meta, update_mirror=False):
             if k2 == "struct":
                 new_lines = rewrite_struct(item, log)
             else:
-                new_lines = ["pub " + strip_vis(item.text)]
+                new_lines = ("pub " + strip_vis(item.text)).split("\n")   # one element per line: later line numbers (gen_lines) depend on it
             ctx, ann = parse_region(region)
             merged, exact = merge(new_lines, ctx, ann)
             out.append(l); out.extend(merged); out.append("//@@ end")
